@@ -13,7 +13,7 @@ class C12(FprCheck):
     id = "C12"
     props_modules = ["E3fpVerif.Props.C12"]
     rule = ("seeded conformers x option draws; one run to L = 14 queried at 0..L+3 and -1, against separate runs limited to "
-            "each k and a run with level -1; multipliers from 0.3 (early stop) to 4 (everything in one shell). "
+            "each k and a run with level -1; multipliers from 0.3 (early stop) over 1.25-1.5 (bond lengths of one molecule separated) to 4 (everything in one shell); duplicate removal off in ~45% of cases. "
             "Non-trivial: convergence level >= 2; distinct by (molecule, conformer, options).")
 
     L = 14
@@ -23,7 +23,11 @@ class C12(FprCheck):
         n = 25 if self.tier == "quick" else 500
         for ref, ci in self.sample_confs(n):
             o = MG.gen_opts(rng, level=self.L)
-            o["radius_multiplier"] = rng.choice([0.3, 0.5, 1.0, 1.718, 1.718, 2.5, 4.0])
+            # 1.25-1.5 separate the bond lengths of one molecule (C=O 1.2, aromatic 1.39, C-N 1.47, C-C 1.54, C-Cl 1.77): some
+            # atoms keep an empty shell at a level where others gain a neighbour
+            o["radius_multiplier"] = rng.choice([0.3, 0.5, 1.0, 1.25, 1.4, 1.5, 1.718, 1.718, 2.5, 4.0])
+            if rng.random() < 0.45:
+                o["remove_duplicate_substructs"] = False
             o["bits"] = 2 ** 32
             qs = [{"level": k, "bits": None, "mask": []} for k in list(range(0, self.L + 4)) + [-1]]
             self.count("long-run")
